@@ -1,7 +1,8 @@
 (* C12: I/O wrapper around the extracted model (gen_model.ml, from coq/Fd/Concurrent.v).
    stdin line  = fd0;prog|prog|...;sched      (same syntax as harness/src/bin/c12.rs)
    modes (argv.(1)):
-     run    (default) -> the line the harness prints: results;syscalls;open;points
+     run    (default) -> the line the harness prints: results;syscalls;open;steps (steps on the cell named
+                         after the atomic operation); run-legacy: named after the label points
      encode           -> [encode (observe ..)] as space separated integers (compared with vm_compute in Coq)
      enum <limit>     -> all maximal interleavings of the programs (schedule part ignored), space separated,
                          each a comma separated list of thread ids; TOOMANY if there are more than <limit> *)
@@ -61,7 +62,15 @@ let show_ev = function
 
 let join sep l = if l = [] then "-" else String.concat sep l
 
-let show_point = function
+(* with the atomic shim in the crate a step on the cell is named after the atomic operation it
+   performs; in legacy mode after the label point in front of it *)
+let shim_names = ref true
+let show_point p =
+  if !shim_names then
+    (match p with
+     | PGetLoad | PTakeLoad -> "atomic.load" | PTakeCas -> "atomic.compare_exchange" | PHandleDrop -> "handle.drop"
+     | PDupSys -> "dup.syscall" | PCloneInc -> "clone.inc" | PDropClose -> "drop.close" | PSkip -> "skip")
+  else match p with
   | PGetLoad -> "get.load" | PTakeLoad -> "take.load" | PTakeCas -> "take.cas" | PHandleDrop -> "handle.drop"
   | PDupSys -> "dup.syscall" | PCloneInc -> "clone.inc" | PDropClose -> "drop.close" | PSkip -> "skip"
 
@@ -111,6 +120,7 @@ let enum_line limit line =
 
 let () =
   let mode = if Array.length Sys.argv > 1 then Sys.argv.(1) else "run" in
+  let mode = if mode = "run-legacy" then (shim_names := false; "run") else mode in
   let limit = if Array.length Sys.argv > 2 then int_of_string Sys.argv.(2) else 100000 in
   try
     while true do
